@@ -687,6 +687,10 @@ def run(prog, rep, tier):
              'as a % L == b with an unreduced b')
     check_mod_compare(prog, rep, ['tenpy/networks/mpo.py', 'tenpy/networks/terms.py',
                                   'tenpy/models/model.py'])
+    from ..flow import check_stale_loop_reads
+    rep.rule('LOOP-stale-read', 'no per-item variable is read in a loop before the iteration assigns '
+             'it when its only other bindings are inside other loops')
+    check_stale_loop_reads(prog, rep, ['tenpy/models/model.py', 'tenpy/networks/terms.py'])
     return rep.finish(
         level='other',
         explanation='plus_hc / explicit_plus_hc protocol decided for %d sibling add_* methods of '
